@@ -71,6 +71,18 @@ var argPool = []string{
 	"{'a' => 1}", "Optional[a]", "Foo", "Callable", "Type[Integer]", "[[Integer], 3]", "{Optional[a] => String, NotUndef['b'] => Any}", "9223372036854775807", "'2000-01-01'", "Undef", "Unit",
 }
 
+// nestings: every valid expression and argument inside every enclosing form (two levels for the short ones).
+var nestingForms = []string{"Foo[%s]", "Foo(%s)", "Deferred(%s)", "Deferred(x, %s)", "Foo{a => %s}", "Foo{%s => 1}", "[%s]", "[%s => 1]", "[a => %s]", "{a => %s}",
+	"{%s => 1}", "(%s)", "(a => %s)", "%s => 1", "a => %s", "type X = %s", "type => %s", "[1, %s, 2]", "Foo[%s, %s]", "Foo(%s) => %s"}
+
+func nestings(inner []string, each func(string)) {
+	for _, f := range nestingForms {
+		for _, e := range inner {
+			each(strings.Replace(f, "%s", e, -1))
+		}
+	}
+}
+
 func joinTokens(toks []string, sep string) string { return strings.Join(toks, sep) }
 
 // mutationBytes: the replacement / insertion alphabet of the single-byte mutation family.
